@@ -77,7 +77,7 @@ def load_findings(pid: str):
     if not FINDINGS.exists():
         return []
     data = json.loads(FINDINGS.read_text())
-    return [f for f in data.get("findings", []) if f["property"] == pid]
+    return [f for f in data.get("findings", []) if f["property"] == pid or pid in f.get("also", [])]
 
 
 def write_evidence(pid, tier, seed, rep: Report, wall, nviol):
